@@ -500,7 +500,10 @@ def run_history(case, res, check_c01=True, check_c03=False, pid="C01"):
                             resps[rid] = r
                             hows[rid] = ["preloaded"] if op["preload"] else []
                             w.preload_unreleased = getattr(w, "preload_unreleased", set())
-                            if op["preload"] and op.get("release") is False:
+                            # a preloaded (completely read) response that urlopen hands out still holding its
+                            # connection: the repaired `_make_request` releases it, so this set stays empty
+                            # unless the defect `preloaded-release_conn=False` comes back
+                            if op["preload"] and op.get("release") is False and r._connection is not None:
                                 w.preload_unreleased.add(rid)
                             result = "resp:%d" % r.status
                             if w.fired():
